@@ -1378,7 +1378,7 @@ pub fn run(tier: &str) -> i32 {
                     ev.violations.push(Violation {
                         property: "C04".into(),
                         oracle: "process_died".into(),
-                        key: format!("process_died:history:{batch}:{chunk_first}..={i}"),
+                        key: format!("{}process_died:history:{batch}:{chunk_first}..={i}", if dev { "dev:" } else { "" }),
                         detail: format!("the process driving the scoped evaluators ended with {how} at case {i} of batch '{batch}'{}", if dev { " [dev profile]" } else { "" }),
                         seed: vs,
                         replay: rj,
